@@ -531,6 +531,12 @@ def rule_der_shape_only(ctx: Ctx, rep: Report) -> None:
     rep.floor(rule, 1)
 
 
+def rule_sticky_flags_(ctx: Ctx, rep: Report) -> None:
+    """C08.sticky_flags: a flag raised inside a loop and read after it is accumulated, not overwritten (see sigcommon.rule_sticky_flags)."""
+    from rules.sigcommon import rule_sticky_flags
+    rule_sticky_flags(ctx, rep, "C08.sticky_flags", ('btclib.script',))
+
+
 # ---------------------------------------------------------------------------
 def rule_flags(ctx: Ctx, rep: Report) -> None:
     """C08.flags: the flag enum is Core's, and every flag is consulted by the engine."""
@@ -873,6 +879,7 @@ def rule_foreign_errors(ctx: Ctx, rep: Report) -> None:
 
 
 RULES = [
+    ("C08.sticky_flags", rule_sticky_flags_),
     ("C08.der_shape_only", rule_der_shape_only),
     ("C08.key_encoding_always_judged", rule_key_encoding_always_judged),
     ("C08.strictenc_hashtypes", rule_strictenc_hashtypes),
